@@ -33,6 +33,7 @@ EXPLANATION = ("a: parse_rule_attributes assigns each RuleAttributes field under
 FLOORS = {"attributes": 6, "condition_regexes": 3, "scanners": 8}
 EXPLANATION += ' f: the ConditionGroup constructors are plain wrappers (shared with C01.b). g: inventory of run-removing / rewriting / case-folding string operations (trim_*_matches, replace, to_lowercase, retain ...) in the GRL parser: each removes only layout, or its result is only compared (keyword match), or it is in the reviewed table with its reason; anything else changes the text the next parsing step sees.'
 EXPLANATION += " d (added): a character scanner may not flip one in-string flag on both quote characters. h: lexical agreement - is_identifier's continuation predicate admits digits, like the field names `[a-zA-Z_][a-zA-Z0-9_]*` of the condition patterns (shared with C01)."
+EXPLANATION += ' i: in parse_value the numeric literal forms are tried before the arithmetic-expression test (`-100.50` is a number).'
 
 GP = "parser::grl::GRLParser"
 OPS = "types::Operator"
@@ -48,6 +49,7 @@ def run(P, R, tier, cfg):
     _precedence(P, R)
     _scanners(P, R)
     _identifier_class(P, R)
+    _literal_before_expression(P, R)
     _salience(P, R)
     from rules import connectives
     connectives.check_constructors(P, R, "f")
@@ -254,6 +256,28 @@ def _precedence(P, R):
         R.hold("c", "outer parentheses are stripped only under is_balanced_parentheses(inner)", fn=f)
     else:
         R.violate("c", "paren-strip-unguarded", "outer parentheses are stripped without checking that they match each other: `(a) && (b)` loses its structure", f)
+
+
+def _literal_before_expression(P, R):
+    """i. A value's text is classified in a fixed order; numeric literals come before the arithmetic-expression test, because that
+    test (an operator character together with a `.` or a space) also fires on `-100.50` and `1.5e-3`: tried first, it turns a
+    signed fractional literal into Value::Expression. Decided as: in parse_value every is_expression call is dominated by the
+    failed i64 and f64 parses."""
+    f = P.fns.get(GP + "::parse_value")
+    if f is None:
+        R.undecide("i", "parse_value", "GRLParser::parse_value not found")
+        return
+    f = P.inlined(f)
+    isx = [c for c in f.calls() if c.bb in f.normal_blocks() and c.resolved == GP + "::is_expression"]
+    nums = [c for c in f.calls() if c.bb in f.normal_blocks() and c.name.endswith("str>::parse") and any(k in (f.local_ty(c.dest[0]) or "") for k in ("Result<i64", "Result<f64"))]
+    floats = [c for c in nums if "f64" in (f.local_ty(c.dest[0]) or "")]
+    if not isx or not floats:
+        R.undecide("i", "parse_value", "is_expression call / f64 parse not found in parse_value (%d/%d)" % (len(isx), len(floats)), f)
+        return
+    if all(any(f.dominates(n_.bb, c.bb) for n_ in floats) for c in isx):
+        R.hold("i", "parse_value tries the numeric literal forms before the arithmetic-expression test", fn=f, line=isx[0].line)
+    else:
+        R.violate("i", "expression-test-before-number", "parse_value asks is_expression before it has tried to read the text as a number: `-100.50` (an operator character and a `.`) becomes Value::Expression instead of Number(-100.5)", f, isx[0].line)
 
 
 def _identifier_class(P, R):
